@@ -63,6 +63,43 @@ WinX(m, teams)  == Win(m.beta, TeamsVals(teams))
 DrawX(m, teams) == Draw(m.beta, TeamsVals(teams))
 RankX(m, teams) == RankProb(m.beta, TeamsVals(teams))
 
+---------------------------------------------------------------------------
+\* Construction of a model object: Model(mu, sigma, beta, kappa, gamma, tau, limit_sigma), every argument optional
+\* (an absent argument is PNone here).  An omitted argument takes the published default - which does not follow the
+\* other arguments: sigma stays 25/3 and beta 25/6 when only mu is given -, a numeric argument (int, float, bool) is
+\* stored as the float of the same value, gamma and limit_sigma are stored as given.  Nothing else is stored.
+NumAttrs == {"mu", "sigma", "beta", "kappa", "tau"}
+DefaultOf(a) == CASE a = "mu" -> "25" [] a = "sigma" -> "25" // "3" [] a = "beta" -> "25" // "6"
+                  [] a = "kappa" -> "0.0001" [] a = "tau" -> "25" // "300"
+\* the attribute value the owner asked for (a real), or "" when the argument is not a finite number
+AskedNum(args, a) == IF IsNone(args[a]) THEN DefaultOf(a) ELSE IF IsFinite(args[a]) THEN args[a].v ELSE ""
+AskedLimit(args) == IF IsNone(args.limit) THEN "F" ELSE IF args.limit.t = "bool" THEN (IF args.limit.v = "1" THEN "T" ELSE "F") ELSE ""
+AskedGamma(args) == IF IsNone(args.gamma) THEN "default" ELSE args.gamma.v          \* callbacks are passed by name (PStr)
+\* the model record a constructor call must produce (numerals normalised; the code holds doubles of them)
+Construct(kind, id, args) ==
+  [id |-> id, kind |-> kind, mu |-> AskedNum(args, "mu"), sigma |-> AskedNum(args, "sigma"), beta |-> AskedNum(args, "beta"),
+   kappa |-> AskedNum(args, "kappa"), tau |-> AskedNum(args, "tau"), limit |-> AskedLimit(args), gamma |-> AskedGamma(args), extra |-> ""]
+\* is the observed model object the one asked for?  attribute by attribute; a default is a quotient, so one ulp is allowed there
+AttrAsAsked(args, m, a) ==
+  LET want == AskedNum(args, a)
+  IN  want = "" \/ (RIsReal(m[a]) /\ IF IsNone(args[a]) THEN RWithin(m[a], want, RUlp(want)) ELSE REq(m[a], want))
+ConstructDiffers(args, m) ==
+  {a \in NumAttrs : ~AttrAsAsked(args, m, a)}
+  \cup (IF AskedLimit(args) # "" /\ m.limit # AskedLimit(args) THEN {"limit_sigma"} ELSE {})
+  \cup (IF m.gamma # AskedGamma(args) THEN {"gamma"} ELSE {})
+  \cup (IF m.extra # "" THEN {"extra_attribute"} ELSE {})
+\* which listed properties speak about a configuration attribute ("for every model configuration", "models with the same
+\* parameters", "the model's own setting", "model defaults only where an argument is omitted")
+PropsOfAttr(a) == CASE a \in {"mu", "sigma"} -> {"C16", "C19", "C20"}
+                    [] a = "beta"  -> {"C01", "C08", "C09", "C10", "C11", "C12", "C16", "C19"}
+                    [] a = "kappa" -> {"C01", "C06", "C08", "C19"}
+                    [] a = "tau"   -> {"C01", "C06", "C15", "C16", "C19"}
+                    [] a = "limit_sigma" -> {"C06", "C15", "C19"}
+                    [] a = "gamma" -> {"C01", "C19"}
+                    [] OTHER -> {"C14", "C19"}
+ConstructFails(args, m, Want) ==
+  UNION {{p \o ".model_not_as_constructed:" \o a : p \in PropsOfAttr(a) \cap Want} : a \in ConstructDiffers(args, m)}
+
 \* numeric domain of the properties (C01/C08): mu within 20 beta, sigma in [1e-4, 10] beta (0 allowed with tau > 0),
 \* kappa in (0, 1e-2] and, for Thurstone-Mosteller, kappa <= 1e-2*sqrt(2)*beta so that t = kappa/c <= 1e-2
 InDomainVals(m, teams, tau) ==
